@@ -131,6 +131,19 @@ def advection_cases(rng, cases):
     finally:
         for n, o in origs.items():
             setattr(adv, n, o)
+    # boundary arguments for the periodic z index of get_lagrange_vals: shifts beyond one and two periods, either sign
+    # (vals is a view inside a sentinel-filled buffer so that an out-of-range write of a compiled kernel is visible, not fatal)
+    base = next((r for r in rec if r["fn"] == "get_lagrange_vals"), None)
+    if base is not None:
+        i0, sh0, vals0, q0, ts0, kts0, deg0, co0, cu0 = base["args"]
+        nz = vals0.shape[0]
+        for i in (0, 1, nz - 1):
+            for lo in (nz + i + 1, 2 * nz + 3, -(nz + 2), -(2 * nz + i + 1), -2, 0):
+                big = np.full((3 * nz,) + vals0.shape[1:], -777.0)
+                v = big[nz:2 * nz]
+                shifts = np.arange(lo, lo + len(sh0), dtype=sh0.dtype)
+                rec.append({"mod": "accelerated_advection_steps", "fn": "get_lagrange_vals",
+                            "args": [i, shifts, v, q0.copy(), ts0.copy(), kts0.copy(), deg0, co0.copy(), cu0], "base": big, "base_arg": 2})
     # the scratch arrays are outputs as well; bools/ints must keep their python types
     cases.extend(rec)
 
